@@ -286,6 +286,8 @@ def _cases(draw, large=False):
     j = draw(trees.wf_trees(spec, max_nodes=30 if large else 6, role_pool=(fwd, inv), concepts=concepts, emptyconcept=False, wide=8 if large else 3))
     if table['reifications'] and draw(st.booleans()):
         j = trees.reify_in_tree(draw, j, table, prob=(1, 3) if draw(st.booleans()) else (2, 3), tail=draw(st.integers(0, 2)) == 0)     # collapsible reified nodes written in the text
+    if draw(st.integers(0, 7)) == 0:
+        j = trees.add_decoy(draw, j, table)
     case = {'src': 'tree', 'tree': j, 'model': spec, 'program': prog, 'strip': draw(st.integers(0, 3)) == 0}
     if draw(st.integers(0, 3)) == 0:
         vs = interp.node_vars(interp.to_node(j))
